@@ -181,6 +181,32 @@ def deep_module_workspace(rng):
     return ws
 
 
+def lookalike_workspace(rng):
+    """look-alike modules (a template instantiated twice): in two files a function sits at exactly the same byte range, one
+    module names the library function qualified, the other imports it unqualified; a third declares a local of the same
+    name at that range.  Occurrences known by construction."""
+    fname = rng.choice(["helper", "fetch", "step"])
+    pad = "x" * (len(fname) - 1)            # `import lib // xx…` is as long as `import lib.{<fname>}`
+    lib = f"pub fn {fname}(v) {{\n  v\n}}\n\npub fn other() {{\n  {fname}(1)\n}}\n"
+    unq = f"import lib.{{{fname}}}\npub fn run(v) {{\n  {fname}(v)//aa\n}}\n"
+    qual = f"import lib // {pad}\npub fn run(v) {{\n  lib.{fname}(v)\n}}\n"
+    loc = f"import lib // {pad}\npub fn run({fname}) {{\n  lib.{fname}({fname}([1]))\n}}\n" if len(fname) == 4 else None
+    assert unq.index("pub fn run") == qual.index("pub fn run") and len(unq) == len(qual)
+    order = [("/w/p/src/lib.gleam", lib), ("/w/p/src/qual.gleam", qual), ("/w/p/src/unq.gleam", unq)]
+    if rng.random() < 0.5:
+        order[1], order[2] = order[2], order[1]
+    files = order + [("/w/p/gleam.toml", 'name = "p"\n')]
+    ws = PlainWs(files)
+    idx = {p.split("/")[-1][:-6]: i for i, (p, _) in enumerate(files) if p.endswith(".gleam")}
+    def at(name, text, needle, k=0):
+        return (idx[name], len(text[:text.index(needle) + k].encode("utf-8")))
+    ws.groups = [
+        (fname, [at("lib", lib, f"fn {fname}", 3), at("lib", lib, f"  {fname}(1)", 2), at("unq", unq, f"{{{fname}}}", 1),
+                 at("unq", unq, f"  {fname}(v)", 2), at("qual", qual, f"lib.{fname}(v)", 4)]),
+    ]
+    return ws
+
+
 def run_expected_groups(res, prop, wss):
     """occurrences known by construction to denote one definition (first = declaration): each must lead to it,
     its references must contain them all and nothing of another group, a rename must rewrite exactly them"""
@@ -243,6 +269,7 @@ def run_c06(res, tier, seed):
     rrng = random.Random(seed + 6)
     wss += [record_workspace(rrng) for _ in range(12 if tier == "quick" else 100)]
     wss += [deep_module_workspace(rrng) for _ in range(6 if tier == "quick" else 60)]
+    wss += [lookalike_workspace(rrng) for _ in range(4 if tier == "quick" else 40)]
     wss += [variant_label_workspace(rrng) for _ in range(6 if tier == "quick" else 60)]
     run_expected_groups(res, "C06", wss)
     all_toks = stage1(wss)
